@@ -10,7 +10,8 @@
 (***************************************************************************)
 EXTENDS XDM, TLC
 
-CONSTANTS Axes, Tests, Preds, ParenPreds
+CONSTANTS Axes, Tests, Preds, ParenPreds,
+          Preds2      \* first predicates of two-predicate steps axis::test[p1][p2], p2 in {"1", "last()"}; {} = none
 
 VARIABLES cur
 vars == <<parent, kind, cur>>
@@ -26,6 +27,7 @@ DescOrSelfOf(S)           == UNION {Desc(x) \cup {x} : x \in S}
 OpDSlash(S, ax, t)        == OpStep(DescOrSelfOf(S), ax, t)
 OpDSlashPred(S, ax, t, pr) == OpStepPred(DescOrSelfOf(S), ax, t, pr)
 OpParen(S, pr)            == FilterSeq(AscSeq(S), pr)
+OpStepPred2(S, ax, t, p1, p2) == UNION {FilterSeq(KeepSeq(StepSeq(ax, t, x), p1), p2) : x \in S}
 
 (* axis::test *)
 Step(ax, t) == /\ cur' = OpStep(cur, ax, t)
@@ -34,6 +36,11 @@ Step(ax, t) == /\ cur' = OpStep(cur, ax, t)
 (* axis::test[pred] -- the predicate is numbered in AXIS order per context node *)
 StepPred(ax, t, pr) ==
    /\ cur' = OpStepPred(cur, ax, t, pr)
+   /\ UNCHANGED <<parent, kind>>
+
+(* axis::test[p1][p2] -- the second predicate numbers the survivors of the first, in axis order *)
+StepPred2(ax, t, p1, p2) ==
+   /\ cur' = OpStepPred2(cur, ax, t, p1, p2)
    /\ UNCHANGED <<parent, kind>>
 
 (* E//axis::test  ==  E/descendant-or-self::node()/axis::test *)
@@ -61,6 +68,7 @@ Next == \/ \E ax \in Axes, t \in Tests : Step(ax, t)
         \/ \E ax \in Axes, t \in Tests : DSlash(ax, t)
         \/ \E ax \in Axes, t \in Tests, pr \in Preds : DSlashPred(ax, t, pr)
         \/ \E pr \in ParenPreds : Paren(pr)
+        \/ \E ax \in Axes, t \in Tests, p1 \in Preds2, p2 \in {"1", "last()"} : StepPred2(ax, t, p1, p2)
         \/ Root
 
 Spec == Init /\ [][Next]_vars
